@@ -183,11 +183,14 @@ func (s *Syncer[H]) localHead(ctx context.Context) (H, error) {
 	// pending head is the latest known subjective head and a sync target
 	// if it is empty, no sync is in progress
 	pendHead := s.pending.Head()
-	if !pendHead.IsZero() {
+	// get the latest stored/synced head
+	head, err := s.store.Head(ctx)
+	if !pendHead.IsZero() && (err != nil || pendHead.Height() > head.Height()) {
 		return pendHead, nil
 	}
-	// if pending is empty - get the latest stored/synced head
-	head, err := s.store.Head(ctx)
+	// pending is empty, or holds a head that was stored through another path in the meantime
+	// (a head is learned via gossip and via Head() concurrently) and must not shadow what
+	// was stored on top of it since
 	if err != nil {
 		return head, fmt.Errorf("local store head: %w", err)
 	}
